@@ -316,7 +316,8 @@ fn main() {
         out.spec_checked(all.as_ref() == Some(&kvs), json!({"what": "stream() differs from the inserted pairs", "dict": desc}));
         let table = decompress_table(&slice);
         out.count("zstd_blocks", table.len() as u64);
-        if slice.len() <= 900 || (ci % 9 == 4 && slice.len() <= 9000) {
+        let table_bytes: usize = table.iter().map(|(c, d)| c.len() + d.len()).sum();
+        if slice.len() <= 900 && table_bytes + total_bytes <= 3000 || (ci % 9 == 4 && slice.len() <= 9000 && table_bytes + total_bytes <= 40_000) {
             out.coq_case("tie", format!("tie_stream N.eqb u64_codec {} {} {}", table_term(&table), cf::bytes(&slice), kvs_term(&kvs)),
                          json!({"what": "model_decode(impl bytes) = inserted pairs", "file_len": slice.len(), "zstd_blocks": table.len(), "dict": desc}), nontrivial);
         }
@@ -452,7 +453,7 @@ fn main() {
             match r {
                 Ok((ks, ords, slice)) => {
                     out.spec_checked(ks == keys && ords.iter().enumerate().all(|(i, o)| *o == Some(i as u64)), json!({"what": "void dictionary stream/term_ord", "dict": desc}));
-                    if slice.len() <= 700 {
+                    if slice.len() <= 700 && total_bytes <= 3000 {
                         out.coq_case("tie", format!("tie_stream unit_eqb void_codec {} {} {}", table_term(&decompress_table(&slice)), cf::bytes(&slice), kunit_term(&keys)), json!({"what": "void: model_decode(impl bytes)", "dict": desc}), nontrivial);
                     }
                 }
@@ -472,7 +473,7 @@ fn main() {
             match r {
                 Ok((gets, want, slice)) => {
                     out.spec_checked(gets.iter().zip(&want).all(|(g, (_, r))| g.as_ref() == Some(r)), json!({"what": "range-valued dictionary get", "dict": desc}));
-                    if slice.len() <= 700 {
+                    if slice.len() <= 700 && total_bytes <= 3000 {
                         out.coq_case("tie", format!("tie_stream pairN_eqb range_codec {} {} {}", table_term(&decompress_table(&slice)), cf::bytes(&slice), cf::list(&want, |(k, r)| format!("({}, ({}, {}))", cf::bytes(k), r.start, r.end))),
                                      json!({"what": "range values: model_decode(impl bytes)", "dict": desc}), nontrivial);
                     }
@@ -514,8 +515,8 @@ fn main() {
                 Ok((Some(got), nt)) => {
                     out.spec_checked(got == want && nt == want.len(), json!({"what": "sstable merge != sorted union", "case": desc}));
                     if small {
-                        out.coq_case("spec", format!("spec_merge N.eqb N.add {} {}", cf::list(&inputs, |i| kvs_term(i)), kvs_term(&got)), desc.clone(), k >= 2);
-                        out.coq_case("tie", format!("kvs_eqb N.eqb (heap_merge N.add {}) {}", cf::list(&inputs, |i| kvs_term(i)), kvs_term(&got)), desc.clone(), k >= 2);
+                        out.coq_case("spec", format!("@spec_merge N N.eqb N.add {} {}", cf::list(&inputs, |i| kvs_term(i)), kvs_term(&got)), desc.clone(), k >= 2);
+                        out.coq_case("tie", format!("kvs_eqb N.eqb (@heap_merge N N.add {}) {}", cf::list(&inputs, |i| kvs_term(i)), kvs_term(&got)), desc.clone(), k >= 2);
                     }
                 }
                 other => out.spec_checked(false, json!({"what": "sstable merge panicked", "result": format!("{:?}", other.map(|x| x.1)), "case": desc})),
@@ -579,7 +580,7 @@ fn main() {
                 out.spec_checked(ok, json!({"what": "termdict (fst) get/term_ord/ord_to_term", "case": desc}));
                 out.spec_checked(merged == want_keys && map_ok, json!({"what": "TermMerger: sorted union / ordinal mapping", "case": desc}));
                 if small {
-                    out.coq_case("spec", format!("spec_ord_map {} {} {} && bytes_list_eqb {} (keys (sm_union N.add {}))", cf::list(&inputs, |i| kvs_term(i)), keys_term(&merged), cf::list(&omap, |m| cf::ns(m)),
+                    out.coq_case("spec", format!("@spec_ord_map N {} {} {} && bytes_list_eqb {} (keys (@sm_union N N.add {}))", cf::list(&inputs, |i| kvs_term(i)), keys_term(&merged), cf::list(&omap, |m| cf::ns(m)),
                                                  keys_term(&merged), cf::list(&inputs, |i| kvs_term(i))), json!({"what": "TermMerger ordinal map", "case": desc}), k >= 2);
                     out.coq_case("tie", format!("list_eqb (list_eqb N.eqb) (merge_ord_maps {}) {}", cf::list(&inputs, |i| keys_term(&i.iter().map(|kv| kv.0.clone()).collect::<Vec<_>>())), cf::list(&omap, |m| cf::ns(m))),
                                  json!({"what": "model ordinal maps vs TermMerger", "case": desc}), k >= 2);
